@@ -57,6 +57,15 @@ static uint64_t run_call(const KV &c) {
     Bytes key16(key20.begin(), key20.begin() + 16);
     wl_tape_set(tape.data(), tape.size());
     Digest d;
+    {
+        // VERIF_MASKED_GROUPS=skip: leave out the masked-AEAD call groups (a recorded known finding makes
+        // them abort in one configuration family; they are excluded there by construction and counted);
+        // VERIF_MASKED_GROUPS=only: run nothing else (the probe that confirms the finding).
+        static const char *mg = getenv("VERIF_MASKED_GROUPS");
+        bool is_masked = g == G_MASKED || (g == G_CPP && r % 4 == 1);
+        if (mg && !strcmp(mg, "skip") && is_masked) return 0x5c1bbedULL;
+        if (mg && !strcmp(mg, "only") && !is_masked) return 0x5c1bbedULL;
+    }
     Buf kb(key), nb(nonce), ab(ad), db(data), cb(custom);
     switch (g) {
     case G_AEAD: {
